@@ -331,4 +331,46 @@ Compass(h, w, clues, lab) ==
           /\ clues[k][3] >= 0 => Cardinality({c \in R : ColOf(w, c) < cx}) = clues[k][3]
           /\ clues[k][4] >= 0 => Cardinality({c \in R : RowOf(w, c) > cy}) = clues[k][4]
           /\ clues[k][5] >= 0 => Cardinality({c \in R : ColOf(w, c) > cx}) = clues[k][5]
+
+(* ------------------------------------------------------------------ fivecells *)
+(* board cells: holes (a set of cell numbers) are not part of the board; the other cells are divided into pentominoes.
+   clue[c] (< 0 none) = number of the four sides of cell c that are borders: towards the outside, a hole or another block.
+   A division is a restricted growth string over ALL cells (hole cells carry the pseudo label -1). *)
+FiveSides(h, w, holes, lab, c) ==
+    Cardinality({d \in {<<RowOf(w, c) - 1, ColOf(w, c)>>, <<RowOf(w, c) + 1, ColOf(w, c)>>, <<RowOf(w, c), ColOf(w, c) - 1>>, <<RowOf(w, c), ColOf(w, c) + 1>>} :
+                   ~InBoard(h, w, d[1], d[2]) \/ Cell(w, d[1], d[2]) \in holes \/ lab[Cell(w, d[1], d[2]) + 1] # lab[c + 1]})
+FiveDivision(h, w, holes, lab) ==
+    LET live == Cells(h, w) \ holes IN
+    \A b \in {lab[c + 1] : c \in live} :
+        LET B == {c \in live : lab[c + 1] = b} IN Cardinality(B) = 5 /\ ConnCells(h, w, B)
+Fivecells(h, w, holes, clues, lab) ==
+    \A c \in Cells(h, w) \ holes : clues[c + 1] >= 0 => FiveSides(h, w, holes, lab, c) = clues[c + 1]
+
+(* ------------------------------------------------------------------ shakashaka *)
+(* A cell is cut by its two diagonals into four small triangles N, E, S, W (0..3).  Answer t in 0..4 per cell:
+   0 nothing, 1 black triangle in the upper-left half (covers N, W), 2 lower-left (W, S), 3 lower-right (S, E),
+   4 upper-right (N, E).  A block cell (problem value >= -1) is entirely black; its number (>= 0) counts the orthogonally
+   adjacent cells that hold a triangle.  Every white area must be a rectangle (upright or at 45 degrees): equivalently,
+   around every lattice point and every cell centre each maximal run of white wedges spans 90, 180 or 360 degrees. *)
+ShWhiteCode == -5                    \* problem value of a white cell
+BlackParts(t) == CASE t = 0 -> {} [] t = 1 -> {0, 3} [] t = 2 -> {3, 2} [] t = 3 -> {2, 1} [] t = 4 -> {0, 1}
+WhitePart(h, w, p, ans, y, x, part) ==      \* is small triangle `part` of cell (y, x) white?  (outside the board: no)
+    InBoard(h, w, y, x) /\ At(p, w, y, x) = ShWhiteCode /\ part \notin BlackParts(At(ans, w, y, x))
+(* the eight 45-degree wedges around lattice point (py, px), clockwise starting at east, as <<cell y, cell x, part>>:
+   lower-right cell (the point is its top-left corner): N, W; lower-left cell: E, N; upper-left cell: S, E; upper-right cell: W, S *)
+CornerWedges(py, px) ==
+    << <<py, px, 0>>, <<py, px, 3>>, <<py, px - 1, 1>>, <<py, px - 1, 0>>,
+       <<py - 1, px - 1, 2>>, <<py - 1, px - 1, 1>>, <<py - 1, px, 3>>, <<py - 1, px, 2>> >>
+RunsOK(f) ==        \* f: 1..8 -> BOOLEAN, circular; every maximal run of TRUE has length 2, 4 or 8
+    LET at(i) == f[((i - 1) % 8) + 1]
+        RECURSIVE Len8(_, _)
+        Len8(i, k) == IF k = 8 \/ ~at(i + k) THEN k ELSE Len8(i, k + 1)
+    IN  IF \A i \in 1 .. 8 : f[i] THEN TRUE
+        ELSE \A i \in 1 .. 8 : (f[i] /\ ~at(i + 7)) => Len8(i, 0) \in {2, 4}
+Shakashaka(h, w, p, ans) ==
+    /\ \A c \in Cells(h, w) : p[c + 1] # ShWhiteCode => ans[c + 1] = 0
+    /\ \A c \in Cells(h, w) : p[c + 1] >= 0 => Cardinality({d \in Orth(h, w, c) : ans[d + 1] # 0}) = p[c + 1]
+    /\ \A py \in 0 .. h, px \in 0 .. w :
+          LET cw == CornerWedges(py, px) IN
+          RunsOK([i \in 1 .. 8 |-> WhitePart(h, w, p, ans, cw[i][1], cw[i][2], cw[i][3])])
 =============================================================================
